@@ -15,6 +15,7 @@ mod real;
 mod cmd_real;
 mod mutate;
 mod cmd_tamper;
+mod cmd_pubinput;
 mod merkle;
 mod hashes;
 mod terms;
@@ -36,7 +37,10 @@ fn main() {
         "queries" => cmd_queries::run(rest),
         "config" => cmd_config::run(rest),
         "fri" => cmd_fri::run(rest),
+        "pi-seed" => cmd_pubinput::run_seed(rest),
+        "pi-validate" => cmd_pubinput::run_validate(rest),
         "tamper" => cmd_tamper::run_tamper(rest),
+        "malformed" => cmd_tamper::run_malformed(rest),
         "real-matrix" => cmd_real::run_matrix(rest),
         "stark-replay" => cmd_stark::run_replay(rest),
         "fri-random" => cmd_fri::run_random(rest),
